@@ -27,6 +27,8 @@ func init() {
 			ruleSampleLabelSet(r)
 			ruleMapCopyWriteBack(r, []string{metricPkg, enginePkg}, 2)
 			ruleStepSamplesAccumulate(r, []string{"vectorAggIterator", "vectorAggHeapIterator", "rangeAggIterator"})
+			ruleBinOpPairsMatched(r)
+			ruleStepBuffers(r) // per-step conservation: a reported step holds only what this step computed
 		},
 	})
 }
